@@ -617,7 +617,7 @@ def m_join(it, sep, args):
         if seq.elem != kind_of(sep):
             it.throw("TypeError", "sequence item: expected str instance")
         return fresh(kind_of(sep), "joined")  # contents not modelled
-    items = list(it.iterate(seq))
+    items = [x.as_sv() if hasattr(x, "as_sv") else x for x in it.iterate(seq)]
     if not isinstance(sep, SV) and not any(isinstance(x, SV) for x in items):
         if not all(isinstance(x, type(sep)) for x in items):
             it.throw("TypeError", "sequence item: expected str instance")
